@@ -42,6 +42,17 @@ def gen_case(seed):
     rules = []
     chain = rng.random() < 0.5
     pairs = [('X', 'Y')] + ([('Y', 'Z')] if chain else [])
+    composite = (not chain) and rng.random() < 0.4
+    if composite:
+        # the only rule starts from a COMPOSITE dimension C = X*W (current per area, say): a unit of the part X alone, or of W
+        # alone, is not connected to Y by it
+        ops.append(['add', 0, 'C0', ('mul', ('ref', 'X0'), ('ref', kbase[0]))])
+        ops.append(['add', 0, 'C1', ('mul', ('ref', 'C0'), ('num', rng.choice(['1000', '0.01', '2.5'])))])
+        ops.append(['add', 0, 'W0', ('mul', ('ref', kbase[0]), ('num', '10'))])
+        ops.append(['add', 0, 'C2', ('mul', ('ref', 'X1'), ('ref', 'W0'))])
+        units['C'] = [('get', 0, 'C0'), ('get', 0, 'C1'), ('get', 0, 'C2')]
+        units['W'] = [('get', 0, 'W0'), ('get', 0, kbase[0])]
+        pairs = [('C', 'Y')]
     for k, (s, t) in enumerate(pairs):
         div = rng.random() < 0.5
         kname = 'K%d' % k
@@ -53,7 +64,9 @@ def gen_case(seed):
                       'kq': rng.choice(['12', '1.1', '0.5', '2', '96', '1', '1', '-1', '-2.5']), 'ksym': sym,
                       'kunit': ('get', 0, kname)})
     dim_pairs = [('X', 'Y'), ('Y', 'X'), ('X', 'Z'), ('Y', 'Z'), ('Z', 'X'), ('X', 'X'), ('Y', 'Y')]
-    if rng.random() < 0.4:
+    if composite:
+        dim_pairs += [('C', 'Y'), ('W', 'Y'), ('C', 'X'), ('Y', 'C'), ('X', 'C')]
+    if rng.random() < 0.4 and not composite:
         # a generic rule function ("multiply by K") registered for a second pair of dimensions P = X*W -> Q = Y*W as the
         # very same callable
         for tag, src in (('P', 'X'), ('Q', 'Y')):
